@@ -352,3 +352,21 @@ def _k_fn(self, qualname):
 
 K.close = _k_close
 K.fn = _k_fn
+
+
+def _k_modelfunc(self, name, params, ret="float", n_labels=None):
+    """a user model function: uninterpreted (symbolic) / numeric stand-in (native)"""
+    from .absfunc import AbsFunc, native_model_function
+
+    if self.mode == "native":
+        return native_model_function(name, params, ret, n_labels)
+    f = AbsFunc(name, [(p, "pk") for p in params], ret=ret)
+    if ret == "int" and n_labels is not None and params:
+        xs = [z3.Real(f"{name}.x{i}") for i in range(len(params))]
+        app = f._a.F[0](*xs)
+        # "transitions stay in the space": labels returned by a discrete law of motion are valid
+        cur().assume(z3.ForAll(xs, z3.And(app >= 0, app < n_labels), patterns=[app]), tag="requires")
+    return f
+
+
+K.modelfunc = _k_modelfunc
